@@ -1,7 +1,7 @@
 //! Monitors evaluated at every call boundary of a session (C01-C05, C10-C12, C16, C18 rules).
 #![allow(dead_code)]
 
-use std::collections::{BTreeMap, HashMap, HashSet};
+use std::collections::{HashMap, HashSet};
 
 use crate::dev::{Ev, EvKind, Image};
 use crate::fatck::{self, DDir, DNode, DecodeOpts, Decoded, NodeKind, Region};
@@ -55,6 +55,7 @@ pub fn stamps_of(n: &DNode) -> Stamps {
         adate: n.e.adate,
         mtime: n.e.mtime,
         mdate: n.e.mdate,
+        raw: n.e.raw.to_vec(),
     }
 }
 
@@ -112,6 +113,7 @@ fn set_handle(s: &mut Sess, slot: Option<usize>, stored: bool, h: MH) {
 pub fn judge<'f>(s: &mut Sess, _fs: &'f Fs, _hs: &mut [Option<H<'f>>], op: &Op, exp: Option<&Expect>, out: &Out, _pre: &Image, _log: &[Ev]) {
     let ek = out.ek.unwrap_or(EK::Ok);
     s.touch.clear();
+    s.renamed = None;
     match op {
         Op::CreateFile { .. } | Op::CreateDir { .. } | Op::OpenFile { .. } | Op::OpenDir { .. } | Op::Remove { .. } | Op::Rename { .. } => {
             let x = exp.expect("namespace op without expectation");
@@ -174,6 +176,7 @@ pub fn judge<'f>(s: &mut Sess, _fs: &'f Fs, _hs: &mut [Option<H<'f>>], op: &Op, 
                         if x.dst_existing == Some(src) {
                             // same entry: nothing changes (a case-only spelling change is tolerated later)
                         } else {
+                            s.renamed = Some(src);
                             s.model.detach(src);
                             s.model.nodes[src].parent = x.dst_parent;
                             s.model.nodes[src].name = x.dst_last.clone();
@@ -268,41 +271,34 @@ pub fn judge<'f>(s: &mut Sess, _fs: &'f Fs, _hs: &mut [Option<H<'f>>], op: &Op, 
                 s.violate("C01", "list-error", op, ek.name(), format!("{} failed with {}", op.show(), ek.name()));
                 return;
             }
-            let mut want: BTreeMap<Vec<u16>, (bool, Option<u64>)> = BTreeMap::new();
+            let mut want: Vec<(Vec<u16>, bool, Option<u64>)> = Vec::new();
             for c in &s.model.nodes[node].children {
                 let n = &s.model.nodes[*c];
                 let len = if n.is_dir || s.model.file_handle_on(*c).is_some() { None } else { Some(n.content.len() as u64) };
-                want.insert(units(&n.name), (n.is_dir, len));
+                want.push((units(&n.name), n.is_dir, len));
             }
-            let mut got: BTreeMap<Vec<u16>, (bool, u64)> = BTreeMap::new();
-            for l in &out.listing {
-                if l.short == b"." || l.short == b".." {
-                    continue;
-                }
-                if got.insert(l.name.clone(), (l.is_dir, l.len)).is_some() {
-                    s.violate("C01", "list-duplicate", op, "", format!("{} returned the name {} twice", op.show(), crate::util::show_units(&l.name)));
-                    return;
-                }
-            }
-            for (k, (isd, len)) in &want {
-                match got.get(k) {
+            let got: Vec<&crate::sess::Listed> = out.listing.iter().filter(|l| l.short != b"." && l.short != b"..").collect();
+            let mut used = vec![false; got.len()];
+            for (k, isd, len) in &want {
+                let hit = got.iter().enumerate().position(|(i, l)| !used[i] && crate::sess::name_matches(l, k));
+                match hit {
                     None => {
                         s.violate("C01", "list-missing", op, "", format!("{} does not list {}", op.show(), crate::util::show_units(k)));
                         return;
                     }
-                    Some((gd, gl)) => {
-                        if gd != isd || len.map_or(false, |l| l != *gl) {
-                            s.violate("C01", "list-attr", op, "", format!("{}: entry {} listed as dir={} len={}, model dir={} len={:?}", op.show(), crate::util::show_units(k), gd, gl, isd, len));
+                    Some(i) => {
+                        used[i] = true;
+                        let l = got[i];
+                        if l.is_dir != *isd || len.map_or(false, |x| x != l.len) {
+                            s.violate("C01", "list-attr", op, "", format!("{}: entry {} listed as dir={} len={}, model dir={} len={:?}", op.show(), crate::util::show_units(k), l.is_dir, l.len, isd, len));
                             return;
                         }
                     }
                 }
             }
-            for k in got.keys() {
-                if !want.contains_key(k) {
-                    s.violate("C01", "list-ghost", op, "", format!("{} lists {} which the reference tree does not contain", op.show(), crate::util::show_units(k)));
-                    return;
-                }
+            if let Some(i) = used.iter().position(|u| !*u) {
+                s.violate("C01", "list-ghost", op, "", format!("{} lists {} which the reference tree does not contain", op.show(), crate::util::show_units(&got[i].name)));
+                return;
             }
         }
         Op::Read { h, len } | Op::Write { h, len } => {
